@@ -20,6 +20,7 @@ type Report struct {
 	WallS          float64
 	LoadS          float64
 	Errors         []string
+	UncoveredImpls []string // in-repo implementations of contracted interface methods that have no verified contract of their own (the interface contract is assumed for them)
 }
 
 func main() {
@@ -30,6 +31,7 @@ func main() {
 	work := flag.String("work", "", "work directory for SMT files")
 	timeout := flag.Int("timeout", 10000, "per-obligation solver timeout (ms)")
 	jobs := flag.Int("j", 14, "parallel functions")
+	conform := flag.Bool("conform", false, "run the interface-conformance jobs of ALL contracted interfaces (default: only those named in `conformance` directives)")
 	verbose := flag.Bool("v", false, "print every obligation")
 	keep := flag.Bool("keep", false, "keep SMT files")
 	thorough := flag.Bool("thorough", false, "thorough tier: consult all back ends for every obligation")
@@ -120,7 +122,24 @@ func main() {
 		}
 	}
 	sort.Strings(targets)
-	results := make([]*FnResult, len(targets))
+	var cjobs []*conformJob
+	if *fnRe == "" || *conform {
+		var uncovered []string
+		cjobs, uncovered = eng.conformJobs(want, *conform)
+		sort.Strings(uncovered)
+		rep.UncoveredImpls = uncovered
+		if *fnRe != "" {
+			re := regexp.MustCompile(*fnRe)
+			var keep []*conformJob
+			for _, j := range cjobs {
+				if re.MatchString(j.fn.String()) {
+					keep = append(keep, j)
+				}
+			}
+			cjobs = keep
+		}
+	}
+	results := make([]*FnResult, len(targets)+len(cjobs))
 	var wg sync.WaitGroup
 	sem := make(chan struct{}, *jobs)
 	for i, name := range targets {
@@ -131,6 +150,15 @@ func main() {
 			defer func() { <-sem }()
 			results[i] = eng.runFn(eng.funcs[name])
 		}(i, name)
+	}
+	for i, j := range cjobs {
+		wg.Add(1)
+		go func(i int, j *conformJob) {
+			defer wg.Done()
+			sem <- struct{}{}
+			defer func() { <-sem }()
+			results[len(targets)+i] = eng.runJob(j.fn, j)
+		}(i, j)
 	}
 	wg.Wait()
 	rep.Results = results
